@@ -247,9 +247,11 @@ def document(input_file: str, settings: Settings):
                     else:
                         subdirs.remove(subdir)
 
-            # Sort filenames and subdirs in alphabetical order
-            filenames = sorted(filenames)
-            subdirs = sorted(subdirs)
+            # Sort filenames and subdirs in alphabetical order. The lists are sorted
+            # in place so that os.walk() also descends in that order instead of
+            # the order in which the operating system happened to list them
+            filenames.sort()
+            subdirs.sort()
 
             # If we want to output to an actual file
             # and not stdout
